@@ -64,11 +64,13 @@ def gen(t, sform, shape, forms, lens, src_kind, domain, tier):
     # expected post-state, computed in the harness
     exp = ["let mut want: [%s; %d] = old.clone();" % (t, N)]
     if len(forms) == 1:
-        val = "s.clone()" if src_kind == "scalar" else "svec[k].clone()"
-        exp.append("{ let mut k = 0; while k < n0 && k < %d { if sel0[k] < %d { want[sel0[k]] = %s; } k += 1; } }" % (MAXSEL, N, val))
+        for k in range(MAXSEL):
+            val = "s.clone()" if src_kind == "scalar" else "svec[%d].clone()" % k
+            exp.append("if %d < n0 && sel0[%d] < %d { want[sel0[%d]] = %s; }" % (k, k, N, k, val))
     else:
-        exp.append("{ let mut c = 0; while c < n1 && c < %d { let mut r = 0; while r < n0 && r < %d { let p = sel0[r] + sel1[c] * %d; if p < %d { want[p] = s.clone(); } r += 1; } c += 1; } }"
-                   % (MAXSEL, MAXSEL, R, N))
+        for c_ in range(MAXSEL):
+            for r_ in range(MAXSEL):
+                exp.append("if %d < n0 && %d < n1 { let p = sel0[%d] + sel1[%d] * %d; if p < %d { want[p] = s.clone(); } }" % (r_, c_, r_, c_, R, N))
     same = " && ".join(eq_expr(t, "cur[%d]" % q, "want[%d]" % q) for q in range(N))
     unchanged = " && ".join(eq_expr(t, "cur[%d]" % q, "old[%d]" % q) for q in range(N))
     if domain == "accept":
@@ -111,7 +113,8 @@ def gen(t, sform, shape, forms, lens, src_kind, domain, tier):
                      "Assign*/Set* struct solve via dyn MechFunction"],
           bounds="sink %dx%d, all element values; index values all usize; index vectors / masks of length %s"
                  % (R, C, ",".join(str(n) for f, n in zip(forms, lens) if f in "VB") or "-"),
-          unwind=max(N, MAXSEL, max(lens)) + 3, tier=tier, group=fxn, solver="kissat")
+          unwind=max([1, MAXSEL if src_kind == "vector" else 1] + [n for f_, n in zip(forms, lens) if f_ in "VB"] + [d for f_, d in zip(forms, dims) if f_ in "AB"]) + 2,
+          tier=tier, group=fxn, solver="kissat")
     h.slice = slice_for(t)
     h.stub_loc = True      # impl_assign_fxn! starts from an Err(..).with_compiler_loc() value on every path
     if fxn in MACRO_GENERATED:
